@@ -7,10 +7,10 @@ import "github.com/Vedant9500/WTF/internal/embedding"
 
 // VerifBM25 is the BM25F parameter set in force.
 type VerifBM25 struct {
-	K1                         float64
-	BCmd, BDesc, BKeys, BTags  float64
-	WCmd, WDesc, WKeys, WTags  float64
-	MinIDF                     float64
+	K1                        float64
+	BCmd, BDesc, BKeys, BTags float64
+	WCmd, WDesc, WKeys, WTags float64
+	MinIDF                    float64
 }
 
 // VerifParams returns the BM25F parameters the index of db uses.
